@@ -63,6 +63,7 @@ from malt.operators.py_builtins import range_
 from malt.operators.slices import get_item
 from malt.operators.slices import GetItemOpts
 from malt.operators.slices import set_item
+from malt.operators.slices import update_item_with_op
 from malt.operators.variables import ld
 from malt.operators.variables import ldu
 from malt.operators.variables import Undefined
